@@ -128,6 +128,8 @@ def next_classes_in_place(rng, scratch):
 
 
 class FieldModel(object):
+    keyword_spelling_fields = 0  # fields declared through eliot.fields(key=cls) in this process
+
     def __init__(self, rng, key, scratch=None):
         self.key = key
         self.kind = rng.choice(FIELD_KINDS)
@@ -136,7 +138,13 @@ class FieldModel(object):
         if self.kind == "types":
             if scratch is None:
                 self.classes = rng.sample(TYPE_POOL, rng.randint(1, 3))
-                self.field = Field.for_types(key, list(self.classes), "d")
+                if len(self.classes) == 1 and self.classes[0] is not None and rng.random() < 0.6:
+                    # the keyword spelling of the same declaration: eliot.fields(key=cls)
+                    from eliot import fields as _fields_factory
+                    self.field = _fields_factory(**{key: self.classes[0]})[0]
+                    FieldModel.keyword_spelling_fields += 1
+                else:
+                    self.field = Field.for_types(key, list(self.classes), "d")
             else:
                 next_classes_in_place(rng, scratch)
                 self.classes = list(scratch)  # the declaration: what the list holds at the moment the field is defined
